@@ -76,3 +76,10 @@ pub mod exports {
     pub use serde_html_form;
     pub use serde_json;
 }
+
+// Verification hook (guard: `cfg(kani)`, set only by `cargo kani`): harnesses kept outside the
+// repository are compiled as a child module so that they can reach private items.
+#[cfg(kani)]
+mod verif_kani {
+    include!(concat!(env!("RUMA_VERIF_DIR"), "/kani/ruma_common.rs"));
+}
